@@ -50,9 +50,13 @@ impl Progress {
 pub static CASE_LIMIT_S: AtomicU64 = AtomicU64::new(0);
 
 pub fn worker_init(as_limit_bytes: u64, watchdog_s: u64) {
-    unsafe {
-        let lim = libc::rlimit { rlim_cur: as_limit_bytes, rlim_max: as_limit_bytes };
-        libc::setrlimit(libc::RLIMIT_AS, &lim);
+    // the AddressSanitizer build (thorough tier of C03, tools/build.py) reserves terabytes of shadow address space:
+    // no address-space limit there; its heap is bounded by the sanitizer's own options instead
+    if std::env::var("VERIF_ASAN_BUILD").is_err() {
+        unsafe {
+            let lim = libc::rlimit { rlim_cur: as_limit_bytes, rlim_max: as_limit_bytes };
+            libc::setrlimit(libc::RLIMIT_AS, &lim);
+        }
     }
     std::thread::spawn(move || loop {
         std::thread::sleep(std::time::Duration::from_millis(200));
